@@ -64,6 +64,11 @@ def run(ck):
                         "overlap tests of conflict resolution see a query-axis overlap on both strands (as C15.7 / C11.6)")
     from .c02 import records_frozen
     records_frozen(ck, "C03.15")
+    ck.clause("C03.18", "second-pass fragments carry the number of labels cut off in front of them (as C02.4): an offset looked up by "
+                        "coordinate (`positions.index(...)`) is one short when two labels share a coordinate, and the joined record then "
+                        "holds two pairs with one query label number - the HitEnum walk drops one")
+    from .c02 import fragments as _fr03
+    _fr03(ck, "C03.18")
     ck.clause("C03.17", "the conflict test sees every overlap of two neighbouring chain members (as C15.6): an overlap that is not "
                         "resolved leaves a label in two segments of the record, and the HitEnum walk counts it twice")
     from .c15 import overlap_test as _ot03
